@@ -39,6 +39,9 @@ def wf_violation():
 def attr_refs(cells, key):
     """names of the references recorded as read (by attribute path) by this value"""
     return sorted(n.obj.fullname for n in cells._impl.get_attrpreds(key, {}))
+def in_refgraph(model, obj, key):
+    """is (obj, key) recorded as the reader of some reference?"""
+    return model._impl.refgraph.has_node((obj._impl, key))
 def graph_violation(model):
     """nodes of the dependency graph must be exactly the held values (library's own Cells.check_sanity rule)"""
     g = model._impl.tracegraph
@@ -320,6 +323,12 @@ class Runner:
         pre_held, pre_deep, itm = observe(sp, rec)
         sim = Sim(sp, pre_held, pre_deep, itm, sp.limit_small)
         exp = sim.top(q)
+        pre_ref = set()
+        if exp[0] == "err":
+            for j in range(sp.n):
+                oe = self.obj_expr(j) if sp.nodes[j].cached else None
+                if oe and rec.ev("in_refgraph(m, %s, %r)" % (oe, sp.label(j)[1])):
+                    pre_ref.add(j)      # (left there by an earlier edit: not this call's doing)
         self.hist.append(("call", q, style))
         nontrivial = exp[0] == "err" or self.failures_seen > 0
         key = (sp.key(), self.errmode, tuple(self.hist))
@@ -350,6 +359,11 @@ class Runner:
                                   "%s was executing when %s escaped but now holds %r"
                                   % (lab, EXC_CLASS[e.kind], post_held[j]),
                                   "sys.exit(1 if %s is not None else 0)" % obs_expr(sp, j), ftags)
+                    if j is not None and sp.nodes[j].cached and j not in pre_ref:
+                        oe = self.obj_expr(j)
+                        if oe and rec.ev("in_refgraph(m, %s, %r)" % (oe, sp.label(j)[1])):
+                            self.fail("chk-graph", "%s failed but is still recorded as a reader of references" % (lab,),
+                                      "sys.exit(1 if in_refgraph(m, %s, %r) else 0)" % (oe, sp.label(j)[1]), ftags)
                 if cut is not None and post_deep != pre_deep:
                     self.fail("chk-chain-value", "recursion helper acquired values %r during a DeepReferenceError"
                               % sorted(post_deep - pre_deep), "sys.exit(1 if len(Main.deep) else 0)", ftags)
@@ -364,6 +378,17 @@ class Runner:
             self.fresh_ok("after-call")
             self.state_checks()
         return exp, r
+
+    def obj_expr(self, j):
+        """expression of the element's object that does not evaluate anything (None if it does not exist)"""
+        nd = self.spec.nodes[j]
+        if nd.kind == "Z":
+            return "Zsp%d" % j
+        if nd.kind == "I":
+            if self.rec.ev("Itm.itemspaces.get(1)") is None:
+                return None
+            return "Itm.itemspaces[1].cells['c%d']" % j
+        return "%s.cells['c%d']" % ({"Main": "Main", "Oth": "Oth", "Kid": "Kid"}[nd.home], j)
 
     def check_error(self, q, r, e, ftags):
         sp = self.spec
